@@ -187,6 +187,7 @@ func runC09(c *Ctx) {
 	checkLoopProgress(c, fnsHang)
 	checkResultUsedAfterError(c, fns)
 	checkNilErrorDereferenced(c, fns)
+	checkHandlerMaps(c, via)
 
 	// ---- validators answer Reject/Ignore on error edges
 	acc, _ := p.constValue("pkg/p2p", "ValidationAccept")
